@@ -29,8 +29,8 @@ ASSUMPTIONS = [
     "a step budget (sys.monitoring PY_START events) decides termination; wall-clock is only a watchdog",
 ]
 PLAN = {"quick": dict(programs=500, topologies=1400, depth=3), "thorough": dict(programs=12000, topologies=40000, depth=5)}
-FLOORS = {"quick": {"suite_graphs_judged": 80, "suite_tests_passed": 1400, "sequences_checked": 15000, "deferred_nodes_seen": 3000, "equivalences_checked": 3000, "topology_roots": 8000, "same_name_two_module_topologies": 200, "bare_and_parameterised_roots": 2000, "two_labels_one_type_roots": 1500, "user_generic_roots": 900},
-          "thorough": {"suite_graphs_judged": 80, "suite_tests_passed": 1400, "sequences_checked": 400000, "deferred_nodes_seen": 80000, "equivalences_checked": 80000, "topology_roots": 200000, "bare_and_parameterised_roots": 40000, "two_labels_one_type_roots": 25000, "user_generic_roots": 20000}}
+FLOORS = {"quick": {"suite_graphs_judged": 80, "suite_tests_passed": 1400, "sequences_checked": 15000, "deferred_nodes_seen": 3000, "equivalences_checked": 3000, "topology_roots": 8000, "same_name_two_module_topologies": 200, "bare_and_parameterised_roots": 2000, "two_labels_one_type_roots": 1500, "user_generic_roots": 900, "equal_union_twins_roots": 600},
+          "thorough": {"suite_graphs_judged": 80, "suite_tests_passed": 1400, "sequences_checked": 400000, "deferred_nodes_seen": 80000, "equivalences_checked": 80000, "topology_roots": 200000, "bare_and_parameterised_roots": 40000, "two_labels_one_type_roots": 25000, "user_generic_roots": 20000, "equal_union_twins_roots": 12000}}
 STEP_BUDGET = 2_000_000
 
 
@@ -245,6 +245,19 @@ def run_shard(sh):
                             setattr(prog.module, T.__name__, T)
                         sh.count("two_labels_one_type_roots")
                         check_root(sh, f"{src} with La, Lb = two {type(la).__name__}/{type(lb).__name__} labels of {s.src}", T, steps, prog.source)
+                # the same union reached twice under two spellings that compare equal (member order, Optional vs `| None`): one node
+                scal = [s for r in roots for s in r.walk() if s.kind in ("scalar", "enum", "struct") and not isinstance(s.t, str)]
+                if len(scal) >= 1:
+                    a_ = rng.choice(scal).src
+                    b_ = rng.choice([x.src for x in scal if x.src != a_] or ["int" if a_ != "int" else "str"])
+                    for src in rng.sample([f"tuple[{a_} | None, None | {a_}]", f"dict[typing.Union[{a_}, {b_}], typing.Union[{b_}, {a_}]]",
+                                           f"tuple[typing.Optional[{a_}], {a_} | None, list[None | {a_}]]", f"tuple[{a_} | {b_}, list[{b_} | {a_}]]"], 2):
+                        try:
+                            T2 = prog.ev(src)
+                        except Exception:  # noqa: BLE001  (e.g. `X | None` with X a string reference)
+                            continue
+                        sh.count("equal_union_twins_roots")
+                        check_root(sh, src, T2, steps, prog.source)
                 # parameterised user generics: fields declared in __init__ only, and as a dataclass
                 if comps or gens:
                     exec(f"_T{i} = typing.TypeVar('_T{i}')\n_U{i} = typing.TypeVar('_U{i}')\n"  # noqa: S102
